@@ -24,6 +24,17 @@ pub(crate) fn extend(b: &mut ReadBuffer, n: usize) {
     b.end += n;
 }
 
+/// deliver `content[from..to]` (stream positions, the stream starts at array index 0) as a read would: the bytes are
+/// stored behind the ones already buffered and become visible
+pub(crate) fn deliver<const N: usize>(b: &mut ReadBuffer, content: &[u8; N], from: usize, to: usize) {
+    let mut i = from;
+    while i < to {
+        b.buffer[i] = content[i];
+        i += 1;
+    }
+    b.end = to;
+}
+
 pub(crate) fn begin_of(b: &ReadBuffer) -> usize {
     b.begin
 }
